@@ -198,13 +198,15 @@ M("C14", "notify-after-drain", S, "            await self._notify_connection_cha
 
 # ------------------------------------------------------------------------------------------------ C15
 M("C15", "close-keeps-open", S, "            self.is_open = False\n            # Stop delayed", "            # Stop delayed")
-M("C15", "close-without-disconnect", S, "                    task.cancel()\n            await self._disconnect()\n", "                    task.cancel()\n")
+M("C15", "close-keeps-queue", S, "            # Messages that were never sent must not leak into a later session.\n            self._message_queue.clear()\n", "")
+M("C01", "clear-while-open", S, "        await self._drain_message_queue()\n\n    def _enqueue_message", "        await self._drain_message_queue()\n        self._message_queue.clear()\n\n    def _enqueue_message")
+M("C15", "close-without-disconnect", S, "            self._message_queue.clear()\n            await self._disconnect()\n", "            self._message_queue.clear()\n")
 M("C15", "shutdown-without-stop", A4, "        await self._heartbeat_manager.stop()\n        await self._socket.close()", "        await self._socket.close()")
 M("C15", "poll-task-not-cancelled", A4, "        if self._group_status_request_task:\n            self._group_status_request_task.cancel()\n            with contextlib.suppress(asyncio.CancelledError):\n                await self._group_status_request_task\n\n", "")
 M("C15", "stop-without-cancel", H, "            t.cancel()\n", "")
 M("C15", "zones-kept", A5, "        self._zones.clear()\n", "")
 M("C15", "early-return", A4, "        self._state = _AirTouchState.CLOSED\n        self._initialised_event.clear()\n", "        if not self._initialised_event.is_set():\n            return\n        self._state = _AirTouchState.CLOSED\n        self._initialised_event.clear()\n")
-M("C15", "open-after-disconnect", S, "            self.is_open = False\n            # Stop delayed connection attempts and the read loop so that\n            # nothing acts on the socket after it has been closed.\n            current_task = asyncio.current_task()\n            for task in list(self._background_tasks):\n                if task is not current_task:\n                    task.cancel()\n            await self._disconnect()\n", "            current_task = asyncio.current_task()\n            for task in list(self._background_tasks):\n                if task is not current_task:\n                    task.cancel()\n            await self._disconnect()\n            self.is_open = False\n")
+M("C15", "open-after-disconnect", S, "            self.is_open = False\n            # Stop delayed connection attempts and the read loop so that\n            # nothing acts on the socket after it has been closed.\n            current_task = asyncio.current_task()\n            for task in list(self._background_tasks):\n                if task is not current_task:\n                    task.cancel()\n            # Messages that were never sent must not leak into a later session.\n            self._message_queue.clear()\n            await self._disconnect()\n", "            current_task = asyncio.current_task()\n            for task in list(self._background_tasks):\n                if task is not current_task:\n                    task.cancel()\n            await self._disconnect()\n            self.is_open = False\n")
 M("C15", "init-does-not-resubscribe", A5, "        self._socket.subscribe_on_message_received(self._message_received)\n        await self._socket.open_socket()", "        await self._socket.open_socket()")
 M("C15", "stop-keeps-tasks", H, "        self._heartbeat_tasks.clear()\n", "")
 
